@@ -307,7 +307,8 @@ func HarnessC19PeriodicStop() {
 	if err == nil {
 		o, ok := api.objects[c19Cond(0, 0).Name]
 		vassert(ok && c19Quota(o) == q, "C19/stop-returned-without-flushing-pending-condition")
-		vassert(s.stopped, "C19/stop-succeeded-but-store-not-marked-stopped")
+		// a further Stop is a no-op that still reports success
+		vassert(s.Stop() == nil, "C19/second-stop-after-success-fails")
 	}
 	vreach("end")
 }
